@@ -628,6 +628,17 @@ func runC03(ctx *Ctx) error {
 				[]gOp{{Op: "addgraph", G: 1}, {Op: "restart"}, {Op: "addv", G: 1, El: &gElem{Kind: "v", ID: 1, L: 2}}},
 				[]gOp{{Op: "addgraph", G: 1}, {Op: "addv", G: 1, El: &gElem{Kind: "v", ID: 1, L: 1}}, {Op: "adde", G: 1, El: &gElem{Kind: "e", ID: 1, L: 1, S: 1, T: 2}}, {Op: "restart"}, {Op: "dele", G: 1, ID: 1}, {Op: "restart"}})
 		}
+		// every placement of an edge between two of the three vertices, then the deletion of either endpoint
+		// (incoming and outgoing cascades), of the edge, and of an unrelated vertex
+		for s := 1; s <= 3; s++ {
+			for t := 1; t <= 3; t++ {
+				base := []gOp{{Op: "addgraph", G: 1}, {Op: "addv", G: 1, El: &gElem{Kind: "v", ID: s, L: 1}}, {Op: "addv", G: 1, El: &gElem{Kind: "v", ID: t, L: 2}},
+					{Op: "adde", G: 1, El: &gElem{Kind: "e", ID: 1, L: 1, S: s, T: t}}, {Op: "adde", G: 1, El: &gElem{Kind: "e", ID: 2, L: 2, S: t, T: s, D: 1}}}
+				for _, last := range []gOp{{Op: "delv", G: 1, ID: s}, {Op: "delv", G: 1, ID: t}, {Op: "dele", G: 1, ID: 1}, {Op: "delv", G: 1, ID: 1 + (s+t)%3}} {
+					corpus = append(corpus, append(append([]gOp{}, base...), last, gOp{Op: "addv", G: 1, El: &gElem{Kind: "v", ID: t, L: 1, D: 2}}))
+				}
+			}
+		}
 		for _, h := range corpus {
 			for _, d := range drivers {
 				inputs = append(inputs, c03Input{Driver: d, Hist: h})
